@@ -8,7 +8,7 @@
    value-array constructor and extraction.  The other API calls are covered by the fault
    enumeration (every k of every scenario on the sanitizer build) only.
    Statements only; proofs in MemFacts.v. *)
-From Sbdf Require Import Imp ImpCall Gen.Prog ImpBase ImpFactsHeap ImpFactsRead.
+From Sbdf Require Import Imp ImpCall Gen.Prog ImpBase ImpFactsHeap ImpFactsHeap2 ImpFactsRead.
 From Sbdf Require Import Base Prim.
 From Coq Require Import List.
 From Sbdf Require Import Mem MemFacts.
